@@ -25,7 +25,8 @@ use crate::Ctx;
 use arrow_array::{Array, Float64Array, Int64Array, RecordBatch, StringArray, TimestampNanosecondArray};
 use arrow_schema::{DataType, Field, Schema, TimeUnit};
 use cardinalsin::ingester::{BatchMetadata, Ingester, TopicBatch, TopicBroadcastChannel, TopicFilter};
-use cardinalsin::metadata::LocalMetadataClient;
+use cardinalsin::metadata::{LocalMetadataClient, MetadataClient, ObjectStoreMetadataClient, ObjectStoreMetadataConfig};
+use crate::util;
 use cardinalsin::query::{QueryFilter, QueryNode};
 use cardinalsin::schema::MetricSchema;
 use datafusion::prelude::SessionContext;
@@ -308,11 +309,18 @@ fn lane2(ctx: &Ctx, out: &mut Outcome, total: u64) {
         let batches: Vec<Vec<Row>> = (0..nb).map(|b| gen_rows(&mut rng, merge, (idx * 1000 + b as u64 * 50) as i64)).collect();
         let w2 = w.clone();
         let batches2 = batches.clone();
+        // every other subscription runs against a catalog that refuses writes during some flushes: the chunk is
+        // uploaded, its registration fails, write() returns the error and the rows go out with the next flush
+        let flaky = rng.chance(1, 2);
+        let fail_at: Vec<bool> = (0..nb).map(|b| flaky && b + 1 < nb && rng.chance(1, 3)).collect();
+        let any_failed = fail_at.iter().any(|f| *f);
+        let fail_at2 = fail_at.clone();
         let rt = tokio::runtime::Builder::new_current_thread().enable_all().build().unwrap();
         let res: Result<(Vec<Vec<u64>>, Vec<Vec<u64>>), String> = rt.block_on(async move {
             clock::freeze_wall(merge);
             let store = Arc::new(InMemory::new());
-            let meta = Arc::new(LocalMetadataClient::new());
+            let cat = Arc::new(util::FailSwitchStore { inner: Arc::new(InMemory::new()), failing: false.into(), failed: 0.into() });
+            let meta: Arc<dyn MetadataClient> = if flaky { Arc::new(ObjectStoreMetadataClient::new(cat.clone(), ObjectStoreMetadataConfig::default())) } else { Arc::new(LocalMetadataClient::new()) };
             let ing = Arc::new(Ingester::new(crate::checks::c03::no_wal_ingester_config(), store.clone(), meta.clone(), crate::checks::c01::storage_config(), MetricSchema::default_metrics()));
             let mut node = QueryNode::new(crate::checks::c09::query_config(), store.clone(), meta.clone(), crate::checks::c01::storage_config()).await.map_err(|e| e.to_string())?;
             let sql = format!("SELECT * FROM metrics WHERE {}", w2);
@@ -325,13 +333,22 @@ fn lane2(ctx: &Ctx, out: &mut Outcome, total: u64) {
                 node.query_stream(&sql).await.map_err(|e| format!("query_stream: {e}"))?
             };
             let mut want: Vec<Vec<u64>> = vec![];
-            for rows in &batches2 {
+            for (bi, rows) in batches2.iter().enumerate() {
                 let b = make_batch(rows, false);
                 let r = reference(&b, &w2, merge, false).await?;
                 if !r.is_empty() {
                     want.push(r);
                 }
-                ing.write(b).await.map_err(|e| format!("write: {e}"))?;
+                if fail_at2[bi] {
+                    cat.failing.store(true, std::sync::atomic::Ordering::SeqCst);
+                    let r = ing.write(b).await;
+                    cat.failing.store(false, std::sync::atomic::Ordering::SeqCst);
+                    if r.is_ok() && cat.failed.load(std::sync::atomic::Ordering::SeqCst) == 0 {
+                        return Err("setup: the write did not reach the catalog while it was refusing writes".into());
+                    }
+                } else {
+                    ing.write(b).await.map_err(|e| format!("write: {e}"))?;
+                }
             }
             // End of the live tail without any timing in the verdict: dropping the ingester closes the
             // broadcast channels, the streaming task forwards what is still queued and ends, the stream closes.
@@ -370,8 +387,16 @@ fn lane2(ctx: &Ctx, out: &mut Outcome, total: u64) {
                 if !want.is_empty() {
                     out.nontrivial(hash_str(&format!("l2|{}|{}", w, idx)));
                 }
-                if got != want {
-                    let cls = if t.contains(&"OR") {
+                if any_failed {
+                    out.count("lane2.subscriptions_with_a_flush_whose_registration_failed", 1);
+                }
+                // a flush that is retried carries the rows of the failed one in front of its own, in one batch:
+                // the property speaks of rows (each once, in flush order), so those histories are compared row by row
+                let differs = if any_failed { got.concat() != want.concat() } else { got != want };
+                if differs {
+                    let cls = if any_failed {
+                        "after-a-flush-whose-registration-failed"
+                    } else if t.contains(&"OR") {
                         "disjunction"
                     } else if t.contains(&"int-literal-on-float-column") || t.contains(&"float-literal-on-int-column") {
                         "literal-type-differs-from-column-type"
@@ -382,8 +407,9 @@ fn lane2(ctx: &Ctx, out: &mut Outcome, total: u64) {
                     };
                     out.violation(
                         &format!("C18/stream/{}", cls),
-                        &format!("live tail for WHERE {} ({}): delivered {:?}, expected per flushed batch {:?}", w, if filtered { "topic-filtered receiver" } else { "legacy broadcast" }, got, want),
-                        json!({"lane": 2, "case_index": idx, "seed": ctx.seed, "where": w, "constructs": t, "batches": batches.iter().map(|b| b.iter().map(|r| format!("{:?}", r)).collect::<Vec<_>>()).collect::<Vec<_>>()}),
+                        &format!("live tail for WHERE {} ({}{}): delivered {:?}, expected per flushed batch {:?}", w, if filtered { "topic-filtered receiver" } else { "legacy broadcast" },
+                            if any_failed { format!("; catalog refused the registration during writes {:?}", fail_at.iter().enumerate().filter(|(_, f)| **f).map(|(i, _)| i).collect::<Vec<_>>()) } else { String::new() }, got, want),
+                        json!({"lane": 2, "case_index": idx, "seed": ctx.seed, "where": w, "constructs": t, "registration_failed_at_write": fail_at, "batches": batches.iter().map(|b| b.iter().map(|r| format!("{:?}", r)).collect::<Vec<_>>()).collect::<Vec<_>>()}),
                     );
                 }
             }
@@ -608,16 +634,14 @@ fn lane5(ctx: &Ctx, out: &mut Outcome, total: u64) {
         let nb = 2 + rng.usize(5);
         let batches: Vec<Vec<Row>> = (0..nb).map(|b| gen_rows(&mut rng, merge, (b as u64 * 50) as i64 + 1)).collect();
         // the metadata the ingester must derive
-        let mds: Vec<BatchMetadata> = batches
-            .iter()
-            .map(|rows| {
-                let key = cardinalsin::sharding::ShardKey::new(0, &rows[0].metric, rows[0].ts);
-                let mut metrics: Vec<String> = rows.iter().map(|r| r.metric.clone()).collect();
-                metrics.sort();
-                metrics.dedup();
-                BatchMetadata { shard_id: format!("shard-{:x}", u64::from_be_bytes(key.to_bytes()[0..8].try_into().unwrap_or([0u8; 8]))), tenant_id: 0, metrics }
-            })
-            .collect();
+        fn md_of(rows: &Vec<Row>) -> BatchMetadata {
+            let key = cardinalsin::sharding::ShardKey::new(0, &rows[0].metric, rows[0].ts);
+            let mut metrics: Vec<String> = rows.iter().map(|r| r.metric.clone()).collect();
+            metrics.sort();
+            metrics.dedup();
+            BatchMetadata { shard_id: format!("shard-{:x}", u64::from_be_bytes(key.to_bytes()[0..8].try_into().unwrap_or([0u8; 8]))), tenant_id: 0, metrics }
+        }
+        let mds: Vec<BatchMetadata> = batches.iter().map(md_of).collect();
         // a filter built from values that occur (and some that do not)
         fn gen_f(rng: &mut Rng, mds: &[BatchMetadata], depth: u32) -> TopicFilter {
             if depth > 0 && rng.chance(1, 3) {
@@ -637,17 +661,46 @@ fn lane5(ctx: &Ctx, out: &mut Outcome, total: u64) {
             }
         }
         let filter = gen_f(&mut rng, &mds, 2);
-        let expect: Vec<Vec<u64>> = batches.iter().zip(mds.iter()).filter(|(_, md)| topic_ref(&filter, md)).map(|(rows, _)| rows.iter().map(|r| r.id as u64).collect()).collect();
-        let (f2, b2) = (filter.clone(), batches.clone());
+        // every other subscription: the catalog refuses writes during some flushes; the rows of such a flush go out
+        // with the next one, as one batch whose metadata is that of the combined rows
+        let flaky = rng.chance(1, 2);
+        let fail_at: Vec<bool> = (0..nb).map(|b| flaky && b + 1 < nb && rng.chance(1, 3)).collect();
+        let any_failed = fail_at.iter().any(|f| *f);
+        let (units, mds): (Vec<Vec<Row>>, Vec<BatchMetadata>) = if any_failed {
+            let mut units: Vec<Vec<Row>> = vec![];
+            let mut carry: Vec<Row> = vec![];
+            for (bi, rows) in batches.iter().enumerate() {
+                carry.extend(rows.iter().cloned());
+                if !fail_at[bi] {
+                    units.push(std::mem::take(&mut carry));
+                }
+            }
+            let m = units.iter().map(|rows| md_of(rows)).collect();
+            (units, m)
+        } else {
+            (batches.clone(), mds)
+        };
+        let expect: Vec<Vec<u64>> = units.iter().zip(mds.iter()).filter(|(_, md)| topic_ref(&filter, md)).map(|(rows, _)| rows.iter().map(|r| r.id as u64).collect()).collect();
+        let (f2, b2, fail_at2) = (filter.clone(), batches.clone(), fail_at.clone());
         let rt = tokio::runtime::Builder::new_current_thread().enable_all().build().unwrap();
         let res: Result<Vec<Vec<u64>>, String> = rt.block_on(async move {
             clock::freeze_wall(merge);
             let store = Arc::new(InMemory::new());
-            let meta = Arc::new(LocalMetadataClient::new());
+            let cat = Arc::new(util::FailSwitchStore { inner: Arc::new(InMemory::new()), failing: false.into(), failed: 0.into() });
+            let meta: Arc<dyn MetadataClient> = if flaky { Arc::new(ObjectStoreMetadataClient::new(cat.clone(), ObjectStoreMetadataConfig::default())) } else { Arc::new(LocalMetadataClient::new()) };
             let ing = Arc::new(Ingester::new(crate::checks::c03::no_wal_ingester_config(), store.clone(), meta.clone(), crate::checks::c01::storage_config(), MetricSchema::default_metrics()));
             let mut rx = ing.subscribe_filtered(f2).await;
-            for rows in &b2 {
-                ing.write(make_batch(rows, false)).await.map_err(|e| format!("write: {e}"))?;
+            for (bi, rows) in b2.iter().enumerate() {
+                if fail_at2[bi] {
+                    cat.failing.store(true, std::sync::atomic::Ordering::SeqCst);
+                    let r = ing.write(make_batch(rows, false)).await;
+                    cat.failing.store(false, std::sync::atomic::Ordering::SeqCst);
+                    if r.is_ok() && cat.failed.load(std::sync::atomic::Ordering::SeqCst) == 0 {
+                        return Err("setup: the write did not reach the catalog while it was refusing writes".into());
+                    }
+                } else {
+                    ing.write(make_batch(rows, false)).await.map_err(|e| format!("write: {e}"))?;
+                }
             }
             drop(ing); // closes the channel: recv ends with Closed after what is queued
             let mut got = vec![];
@@ -677,11 +730,14 @@ fn lane5(ctx: &Ctx, out: &mut Outcome, total: u64) {
                 if mds.iter().any(|m| m.metrics.len() > 1) {
                     out.count("lane5.subscriptions_with_a_multi_metric_batch", 1);
                 }
+                if any_failed {
+                    out.count("lane5.subscriptions_with_a_flush_whose_registration_failed", 1);
+                }
                 if got != expect {
                     out.violation(
-                        "C18/topic/end-to-end-delivery-differs-from-filter",
+                        if any_failed { "C18/topic/end-to-end-delivery-after-a-flush-whose-registration-failed" } else { "C18/topic/end-to-end-delivery-differs-from-filter" },
                         &format!("topic filter {:?} on batches with metadata {:?}: delivered {:?}, expected {:?}", filter, mds.iter().map(|m| format!("{}|{}|{:?}", m.tenant_id, m.shard_id, m.metrics)).collect::<Vec<_>>(), got, expect),
-                        json!({"lane": 5, "case_index": idx, "seed": ctx.seed}),
+                        json!({"lane": 5, "case_index": idx, "seed": ctx.seed, "registration_failed_at_write": fail_at}),
                     );
                 }
             }
